@@ -36,6 +36,14 @@ CHECKS = {
    text="Proof (Coq): a paragraph of reader-form fields written by WriteTo reads back as exactly the same paragraph (followed by a blank line and more text, or by nothing) - so read-write-read is the identity and the text is a fixpoint; for ANY value no line written is empty or whitespace-only; paragraphs written through the encoder read back as the same paragraphs (C08.v: 3 theorems, closed). Tie: WriteTo on all sequences of <=4 lines over 6 line shapes with and without trailing newline, random paragraphs, and three write/read cycles through the Encoder on every document the reader accepts (model documents and their mutations), with the property's own predicates (same fields/order/logical lines, text fixpoint, no blank line inside a paragraph, paragraph count) evaluated on the implementation.",
    note="Trusted: as C01. Known finding (class empty-first-line): a multi-line value whose first logical line is empty loses that line (C08_empty_first_line_refuted). Lines that are '.' alone or whitespace-only are not representable in deb822 and are excluded.",
    technique="Coq proof (writer o reader composition) + differential correspondence against WriteTo/Encoder/ParagraphReader", ref="5/C08"),
+ "C13": dict(
+   text="Proof (Coq): iterating the rendering of any list of well-formed members (names of 1-16 bytes with optional trailing '/', numeric columns as digit texts with blank = 0, any data, odd sizes padded) returns exactly their entries in order and then a clean end of archive; each member's reader yields exactly its bytes and depends only on the archive bytes and the member's own header (C13.v: 4 theorems, closed). Tie: deb.LoadAr/Next against the model and against the member list itself on all lists of <=2 (thorough: 3) members over 36 shapes, random archives of up to 12 members, and archives written by ar(1); earlier members are re-read after the iterator has reached the end.",
+   note="Trusted: as C01. io.ReaderAt is an in-memory buffer; io.SectionReader's Seek/Read are exercised by the tie (data compared by length and Adler-32). The runner executes iterate_z, proved equal to the model's iterate.",
+   technique="Coq proof (reader o renderer composition over fixed-width columns) + differential correspondence against deb.Ar", ref="5/C13"),
+ "C15": dict(
+   text="Proof (Coq), for ANY byte string: a returned member consumed >= 60 bytes, came from a header with both magic bytes, has a non-negative size and a reader of exactly that many bytes; at most one step per 60 input bytes; the loop never runs out of fuel (one unit per input byte), so it ends in not-an-archive, end-of-archive or an error; loading as a package gives the same outcome for any order of walking the member map and uses only such members (C15.v: 6 theorems, closed; tar/decompressors/control decoding are oracles). Tie: every numeric column of every header set to hostile text, every truncation point, magic bytes flipped, duplicated/reordered members, random mutations and raw bytes, with the property's predicate evaluated on the implementation's answers and repeated loads compared; .deb loading on stored and gzip members.",
+   note="Trusted: as C01. Absence of panics in the real readers is observed by the tie (recover + watchdog), not proved about Go. Third-party decoders on hostile streams are outside the claim.",
+   technique="Coq proof (progress measure / fuel sufficiency) + differential correspondence and predicate evaluation on hostile inputs", ref="5/C15"),
 }
 NOT_YET = {}
 
